@@ -186,7 +186,7 @@ def _index(values, v):
     raise KeyError(v)
 
 
-def identityu_tla(u):
+def identityu_tla(u, repaired=True):
     """IdentityU.tla: the universe as uniform records for spec/Identity.tla.
 
     k    kind; a, b  byte sequences (node: type, id; pred: id, <<>>; lit: type name, raw payload of
@@ -236,5 +236,6 @@ def identityu_tla(u):
         "---- MODULE IdentityU ----",
         "\\* GENERATED from universe/values.json - do not edit",
         "EXTENDS Integers",
+        "Repaired == %s" % ("TRUE" if repaired else "FALSE"),
         "U == %s" % tla_val(recs),
         "====", ""])
